@@ -30,7 +30,7 @@ FLAGS_SPECIAL = ["", "i", "m", "s", "ims"]
 RAND_FLAGS = ["", "", "i", "i", "m", "s", "im", "is", "ms", "ims"]
 SUBJECTS_PER_PATTERN = 4
 EXOTIC_ALPHABET = P.RANDOM_ALPHABET + "\r\t\u2028\u00a0\x1c\u0663\u00e9"
-GROUP_CPU_SECONDS = 5  # one pattern x one flag set x all its subjects normally costs < 0.05 s
+GROUP_CPU_SECONDS = 2  # one pattern x one flag set x all its subjects normally costs < 0.05 s
 MAX_TIMEOUTS_PER_TASK = 2  # a task gives up after that many (the run is then marked truncated)
 MAX_SHRINKS_PER_SHARD = 12  # further mismatches of a shard are reported as generated
 ENGINE_BUDGET_REF_STEPS = 20000  # fallback bound when the engine's VM cannot be re-run with a larger budget
@@ -600,6 +600,7 @@ def main(chk):
     n3 = len(_PATTERNS)
     step = 24 if thorough else 48
     tasks = [(lo, min(lo + step, n3), "exh3") for lo in range(0, n3, step)]
+    chk.extra["patterns"] = {"le3_nodes": n3}
     _merge(chk, pool.run(exh_task, tasks, timeout=900), "exh3", js_cases)
     if _too_slow(chk):
         return
@@ -614,10 +615,10 @@ def main(chk):
     _PATTERNS = [(a, P.to_source(a)) for a in sel]
     n4 = len(_PATTERNS)
     tasks = [(lo, min(lo + 48, n4), "exh4") for lo in range(0, n4, 48)]
+    chk.extra["patterns"].update({"4_nodes_run": n4, "4_nodes_total": len(all4)})
     _merge(chk, pool.run(exh_task, tasks, timeout=900), "exh4", js_cases)
     if _too_slow(chk):
         return
-    chk.extra["patterns"] = {"le3_nodes": n3, "4_nodes_run": n4, "4_nodes_total": len(all4)}
 
     # ---- sequences of three small terms (quick: seed-rotated 1/20 slice)
     all_s3 = P.enumerate_seq3()
